@@ -206,10 +206,11 @@ Print Assumptions round_to_int_exact.
 
 (* gcd / lcm.  Full statement (the property):
      forall a b integers, gcd a b = Ok x with value x == Z.gcd za zb # 1   (same for lcm).
-   It is FALSE for the present word path (signed template gcd): gcd_word_path_refuted,
-   lcm_word_path_refuted, int_min_ub_refuted.  Proved instead: the present code whenever an operand
-   is big or both are non-negative (`_partial`; every caller in src/ passes positive numbers), and
-   the full statement for the repaired word path of proposed_fixes/C15_gcd_lcm_sign.diff. *)
+   The tree after commit 274dc8b ("fix: C15 — gcd/lcm ... absolute values") implements fr_gcd_fixed /
+   fr_lcm_fixed (the check verifies on every run that the implementation follows this variant):
+   the full statement is gcd_lcm_fixed_exact.  History, about the code before that commit (fr_gcd,
+   fr_lcm: signed template gcd): FALSE there (gcd_word_path_refuted, lcm_word_path_refuted,
+   int_min_ub_refuted), true when an operand is big or both are non-negative (gcd_lcm_exact_partial). *)
 Theorem gcd_lcm_exact_partial : forall a b za zb, wf a -> wf b -> value a == za # 1 -> value b == zb # 1 ->
   (match a, b with Word _ _, Word _ _ => 0 <= za /\ 0 <= zb | _, _ => True end) ->
   (exists x, fr_gcd a b = Ok x /\ wf x /\ value x == Z.gcd za zb # 1) /\
@@ -263,24 +264,38 @@ Theorem mod_word_path_refuted :
 Proof. exact fr_mod_word_path_refuted_lemma. Qed.
 Print Assumptions mod_word_path_refuted.
 
-(* divexact.  Full statement: forall integers n, d <> 0 with d | n.  FALSE for (INT_MIN, -1) on the
-   word path (int_min_ub_refuted); proved for all other operands. *)
+(* divexact.  Full statement: forall integers n, d <> 0 with d | n.  The tree after commit 0dce736
+   ("fix: C15 — divexact(INT_MIN, -1): take the GMP path") implements fr_divexact_fixed:
+   divexact_fixed_exact is the full statement.  History, about the code before (fr_divexact): FALSE for
+   (INT_MIN, -1) on the word path (int_min_ub_refuted), proved for all other operands
+   (divexact_exact_partial). *)
+Theorem divexact_fixed_exact : forall n d zn zd, wf n -> wf d -> value n == zn # 1 -> value d == zd # 1 ->
+  zd <> 0 -> (zd | zn) ->
+  exists x, fr_divexact_fixed n d = Ok x /\ wf x /\ value x == (zn / zd) # 1.
+Proof. exact fr_divexact_fixed_exact. Qed.
+Print Assumptions divexact_fixed_exact.
+
 Theorem divexact_exact_partial : forall n d zn zd, wf n -> wf d -> value n == zn # 1 -> value d == zd # 1 ->
   zd <> 0 -> (zd | zn) -> ~ (zn = WORD_MIN /\ zd = -1) ->
   exists x, fr_divexact n d = Ok x /\ wf x /\ value x == (zn / zd) # 1.
 Proof. exact fr_divexact_exact_partial. Qed.
 Print Assumptions divexact_exact_partial.
 
-(* INT_MIN and -1 as word operands: gcd, operator% and divexact evaluate INT_MIN % -1 or
-   INT_MIN / -1 in int (undefined behaviour; SIGFPE on x86-64) *)
+(* INT_MIN and -1 as word operands: operator% (still in the tree) and, before commits 274dc8b /
+   0dce736, gcd and divexact evaluate INT_MIN % -1 or INT_MIN / -1 in int (undefined behaviour;
+   SIGFPE on x86-64).  The repaired variants return the exact results. *)
 Theorem int_min_ub_refuted :
   wf (Word WORD_MIN 1) /\ wf (Word (-1) 1) /\
   fr_gcd (Word WORD_MIN 1) (Word (-1) 1) = Err UB_overflow /\
   fr_mod (Word WORD_MIN 1) (Word (-1) 1) = Err UB_overflow /\
-  fr_divexact (Word WORD_MIN 1) (Word (-1) 1) = Err UB_overflow.
+  fr_divexact (Word WORD_MIN 1) (Word (-1) 1) = Err UB_overflow /\
+  fr_gcd_fixed (Word WORD_MIN 1) (Word (-1) 1) = Ok (Word 1 1) /\
+  fr_divexact_fixed (Word WORD_MIN 1) (Word (-1) 1) = Ok (Big (2147483648 # 1)).
 Proof.
   destruct fr_gcd_int_min_refuted_lemma as (H1 & H2 & H3). destruct fr_mod_int_min_refuted_lemma as (_ & _ & H4).
-  destruct fr_divexact_int_min_refuted_lemma as (_ & _ & _ & H5). tauto.
+  destruct fr_divexact_int_min_refuted_lemma as (_ & _ & _ & H5).
+  split; [exact H1|]. split; [exact H2|]. split; [exact H3|]. split; [exact H4|]. split; [exact H5|].
+  split; vm_compute; reflexivity.
 Qed.
 Print Assumptions int_min_ub_refuted.
 
